@@ -5,8 +5,13 @@ ID=$1; TIER=$2; shift 2
 P=/verif/seeded/$ID/patch.diff
 cd /repo && git diff --quiet || { echo "/repo dirty"; exit 1; }
 git -C /repo apply $P || { echo "patch does not apply"; exit 1; }
+# evidence written while /repo is mutated must never survive: it is restored afterwards
+BK=$(mktemp -d /verif/work/evidence_bk.XXXXXX); cp -a /verif/evidence/. $BK/
 for C in "$@"; do
   (cd /verif && ./check $C --tier $TIER > /verif/work/seed_${ID}_$C.log 2>&1; echo "seed=$ID check=$C tier=$TIER exit=$? $(grep -c '^VIOLATION' /verif/work/seed_${ID}_$C.log) violation lines; first: $(grep -m1 -A1 '^VIOLATION' /verif/work/seed_${ID}_$C.log | tail -1 | cut -c1-200)")
 done
 git -C /repo checkout -- .
+rm -rf /verif/evidence; mkdir -p /verif/evidence; cp -a $BK/. /verif/evidence/; rm -rf $BK
+# replay files of the seeded violations are kept with the logs, not in /verif/replay
+mkdir -p /verif/work/seed_replays/$ID; mv /verif/replay/*.json /verif/work/seed_replays/$ID/ 2>/dev/null
 git -C /repo status --short | head -3
